@@ -145,6 +145,12 @@ def resets(ctx, rule):
             for site in sites:
                 ctx.check(has_fact(body, site[0], lr, ("Ne", "L", "token.raw.dst_line"), ("Ne", "token.raw.dst_line", "L")), rule, fn,
                           "reset:on-line-change", "the column state is reset exactly when the token starts a new line", ctx.site(body, *site))
+                # ... whenever it does: nothing but the line test decides the reset (a reset under a further condition leaves the
+                # old line's column in the state for some first-on-line tokens)
+                from rules.common import facts_keys as _fk
+                extra = [k for k in _fk(body, site[0], lr) if not (k[0] in ("Ne", "Eq") and "L" in (str(k[1]), str(k[2])) and "token.raw.dst_line" in (str(k[1]), str(k[2])))
+                         and not (k[0] in ("variant_in", "variant_not_in") and "Iterator::next(" in str(k[1]))]
+                ctx.check(not extra, rule, fn, "reset:whenever-line-changes", "the column state is reset for every token that starts a new line (no further condition)", ctx.site(body, *site), detail=str(extra)[:300])
 
 
 def _line_local(body, roles):
